@@ -18,7 +18,11 @@ check), `Hstartaccess` / `Hendaccess` (`attach++` / `attach--`), on top of the S
   C code then reads as a `filerec_t` (type confusion — observed: SEGV in `Hendaccess(fid)`, `Hread(fid)`).  The model returns
   `confused` for such calls and leaves the state alone; the theorems are about histories without confusion (`Res.confused`
   never returned), the engine probes the confused calls in a forked child.
-* NOT modelled: everything about the bytes of the file (that is `H4.ReadOnly`), the DD atoms (`DDGROUP`), the access ids that
+* the DD atom group (`DDGROUP`, `hfiledd.c`) is modelled by its USE COUNT only (`World.ddUse`: `HTPstart` / `HTPinit` take one use per
+  file record, `HTPend` gives it back; the group dies, with every DD id behind every access element of every file, when the count
+  reaches 0) and by the number of its atoms (one `ddid` per access record); a FAILED `Hopen` is an op of its own (`hopenBad`): the
+  answer is FAIL, the handle maps are unchanged, and what it does to the use count is read from the source (Tie A flags).
+* NOT modelled: everything about the bytes of the file (that is `H4.ReadOnly`), the individual DD atoms, the access ids that
   `Hopen`/`Hclose` use internally and release again (`HIread_version`), failure of `HIsync` inside `Hclose`.
 * ghost fields (no counterpart in C, used only in statements): `ARec.file` (the record the access was attached to),
   `World.leaked` (attach counts that can never be given back), `World.trace`.
@@ -58,6 +62,9 @@ structure World where
   leaked : List Nat
   /-- ghost: the atom calls made so far -/
   trace : List Atom.Op
+  /-- `atom_group_list[DDGROUP]->count`: the uses of the DD atom group (`HAinit_group(DDGROUP)` minus `HAdestroy_group(DDGROUP)`);
+      at 0 the group does not exist and no DD id of any file resolves -/
+  ddUse : Nat := 0
 
 /-- the state of the atom layer's specification machine: the two groups this model uses, every other group untouched -/
 def World.atoms (w : World) : SState :=
@@ -169,6 +176,9 @@ def lookA (cfg : Cfg) (w : World) (id : Nat) : ALook :=
 
 /-! ## the H calls -/
 
+/-- the use count of DDGROUP becomes `n` -/
+def setDd (w : World) (n : Nat) : World := { w with ddUse := n }
+
 /-- the access flags of a record that is opened once more with `acc` -/
 def reopenAccess (r : FRec) (acc : Nat) : Nat :=
   if acc &&& DFACC_WRITE != 0 && H4.Gen.Src.HOPEN_REOPEN_SETS_ACCESS then r.access ||| DFACC_WRITE else r.access
@@ -188,8 +198,52 @@ def hopen (w : World) (path acc : Nat) (osOk : Bool) : World × Res :=
     | none =>
       if !osOk then (w, .fail)
       else
-        (regF { w with frecs := w.frecs ++ [(w.nobj, ⟨path, if acc == DFACC_CREATE then DFACC_ALL else acc ||| DFACC_READ, 1, 0⟩)],
-                       nobj := w.nobj + 1 } w.nobj, .id (fidNew w))
+        -- `HTPstart` / `HTPinit`: `HAinit_group(DDGROUP, 256)`, one use per file record
+        (setDd (regF { w with frecs := w.frecs ++ [(w.nobj, ⟨path, if acc == DFACC_CREATE then DFACC_ALL else acc ||| DFACC_READ, 1, 0⟩)],
+                              nobj := w.nobj + 1 } w.nobj) (w.ddUse + 1), .id (fidNew w))
+
+/-- where an `Hopen` that cannot succeed gives up -/
+inductive OpenStage where
+  /-- `HI_OPEN` fails (directory opened for writing, a component of the path is not a directory, name too long, no permission) and
+      the file is not created -/
+  | os
+  /-- `HIvalid_magic` fails: the file is shorter than the magic number or does not start with it (also: a directory opened for
+      reading) -/
+  | magic
+  /-- the magic number is there but `HTPstart` fails: DD block header cut short, `ndds <= 0`, DD list cut short, next-block
+      offset beyond the end of the file, a block chain that comes back to a block whose descriptors are registered already -/
+  | dd
+deriving DecidableEq, Repr, Inhabited
+
+/-- the use count of DDGROUP after a FAILED `HTPstart` inside `Hopen`, from three facts Tie A reads from the source text:
+    `HTPstart` calls `HAinit_group(DDGROUP)` BEFORE it reads the DD blocks (so every failure of the read loop has taken a use);
+    `Hopen` ends the DD list of a file whose `HTPstart` failed (`HTPend` → `HAdestroy_group(DDGROUP)`), or `HTPstart` itself gives the
+    use back on its failure path.  `HAdestroy_group` of a group with count 0 fails and changes nothing (truncated subtraction). -/
+def ddAfterFailedStartOf (takesFirst givesBack : Bool) (n : Nat) : Nat :=
+  let n1 := if takesFirst then n + 1 else n
+  if givesBack then n1 - 1 else n1
+
+/-- … for the source as it is -/
+def ddAfterFailedStart (n : Nat) : Nat :=
+  ddAfterFailedStartOf H4.Gen.Src.HTPSTART_TAKES_DDGROUP_FIRST
+    (H4.Gen.Src.HOPEN_ENDS_DDLIST_OF_FAILED_START || H4.Gen.Src.HTPSTART_FAILURE_RELEASES_DDGROUP) n
+
+/-- `Hopen(path, acc_mode, ndds)` of a path whose open cannot succeed, giving up at `stage`.  The answer is FAIL and no file
+    record, no id, no access record is made or changed; a failure inside `HTPstart` moves the use count of DDGROUP as the source
+    says (`ddAfterFailedStart`).  (A path that is open already is not looked at on disk: the record is shared as in `hopen`;
+    `DFACC_CREATE` makes the file anew unless the operating system refuses.) -/
+def hopenBad (w : World) (path acc : Nat) (stage : OpenStage) : World × Res :=
+  if acc &&& DFACC_ALL != acc then (w, .fail)
+  else
+    match findRec w path with
+    | some _ => hopen w path acc true
+    | none =>
+      if acc == DFACC_CREATE then hopen w path acc (stage != .os)
+      else
+        match stage with
+        | .os => (w, .fail)
+        | .magic => (w, .fail)
+        | .dd => (setDd w (ddAfterFailedStart w.ddUse), .fail)
 
 /-- `Hclose` once the id is known to designate the record `p` = `r`: drop one reference; the last one releases the record unless
     access records are still attached to it -/
@@ -197,7 +251,8 @@ def hcloseRec (w : World) (id p : Nat) (r : FRec) : World × Res :=
   if r.refcount == 1 then
     -- "if file reference count is zero but there are still attached access elts, reject this close"
     if r.attach > 0 then (w, .fail)
-    else (aRem (delF w p) id, .ok)
+    -- `HTPend`: … `HAdestroy_group(DDGROUP)`
+    else (setDd (aRem (delF w p) id) (w.ddUse - 1), .ok)
   else (aRem (setF w p { r with refcount := r.refcount - 1 }) id, .ok)
 
 /-- `Hclose(file_id)` -/
@@ -269,6 +324,8 @@ inductive Op where
   | endaccess (id : Nat)
   | usefid (id : Nat)
   | useaid (id : Nat)
+  /-- an `Hopen` that cannot succeed (`hopenBad`) -/
+  | hopenbad (path acc : Nat) (stage : OpenStage)
 deriving DecidableEq, Repr, Inhabited
 
 def step (cfg : Cfg) (w : World) : Op → World × Res
@@ -279,6 +336,7 @@ def step (cfg : Cfg) (w : World) : Op → World × Res
   | .endaccess id => endAccess cfg w id
   | .usefid id => (w, useFid cfg w id)
   | .useaid id => (w, useAid cfg w id)
+  | .hopenbad p a st => hopenBad w p a st
 
 def run (cfg : Cfg) (w : World) : List Op → World
   | [] => w
